@@ -22,7 +22,7 @@ def run(ctx):
     ctx.rule('R11c', 'after a successful upload_shard the shard is exported to the cache directory and registered in the cache shard manager before the task returns Ok; flush precedes consolidation')
     ctx.guarded('R11a', 'who-may-call', lambda: c16.r16a(_Alias(ctx, 'R16a', 'R11a')))
     ctx.guarded('R11b', REG, lambda: r11b(ctx))
-    ctx.guarded('R11c', c16.SHARDTASK, lambda: r11c(ctx))
+    ctx.guarded('R11c', 'shard upload task', lambda: r11c(ctx))
     ctx.rule('R11d', 'the session shard manager resets its in-memory shard only in flush, inside the same write-guard live range in which that shard was written to disk successfully; add_cas_block records into it under the write guard')
     ctx.guarded('R11d', FLUSH, lambda: r11d(ctx))
 
@@ -54,6 +54,50 @@ def same_root(x, y):
     return flow.access_path(x) is not None and flow.access_path(x) == flow.access_path(y) and x[0] == y[0] and (x[0] != 'local' or x[1] == y[1])
 
 
+def _records_on_all_paths(a, x, target_blocks, ctx=None, depth=0):
+    """(recording blocks, bypass edges, ok): in analysis `a`, does every path to each of `target_blocks` pass a site that
+    hands x.cas_info to add_cas_block (directly, or through an awaited same-crate helper that does so for its
+    parameter on all of its successful paths; one level), except along edges where x is empty?"""
+    adds = []
+    for ab in a.calls(ADD):
+        arg = a.arg(ab, 1)
+        # argument must be (a clone of) x.cas_info
+        if arg[0] == 'field' and arg[2] == 'cas_info' and same_root(arg[1], x) and a.awaited(ab) is not None:
+            adds.append(ab)
+    if ctx is not None and depth == 0:
+        from .core import strip_generics
+        for cb in a.calls():
+            t = a.term(cb)
+            q = ctx.cg.norm.get(strip_generics(t.get('res') or t.get('fn') or ''))
+            hb = ctx.F.bodies.get((q or '') + '::{closure#0}')
+            ho = ctx.F.bodies.get(q or '')
+            if hb is None or ho is None or hb['crate'] != 'data' or a.awaited(cb) is None or q.endswith('register_new_xorb_for_upload'):
+                continue
+            # which argument is x?
+            for i_, o in enumerate(t['args']):
+                if not same_root(a.flow.expr(o), x):
+                    continue
+                pname = ho['locals'][i_ + 1].get('n') if i_ + 1 < len(ho['locals']) else None
+                if not pname:
+                    continue
+                ah = an(hb)
+                oks = [b for (b, si, k, e) in ah.ret_sites() if k != 'err']
+                _, _, good = _records_on_all_paths(ah, ('upvar', pname), oks, None, 1)
+                if good and oks:
+                    adds.append(cb)
+
+    # bypass: edges on which x.num_bytes() == 0
+    def empty_holds(op, l, r):
+        if op != 'Eq':
+            return False
+        if l[0] == 'call' and l[1].endswith('RawXorbData::num_bytes') and same_root(l[2][0], x) and r[0] == 'const' and r[1] == 0:
+            return True
+        return False
+    bypass = edges_where(a, empty_holds)
+    ok = bool(adds) and all(a.cfg.must_pass(tb, via_blocks=adds, also_cut_edges=bypass) for tb in target_blocks)
+    return adds, bypass, ok
+
+
 def r11b(ctx):
     sites = ctx.cg.call_sites('FileUploadSession::register_new_xorb_for_upload')
     ctx.floor('R11b', 'call sites of register_new_xorb_for_upload', len(sites), 2)
@@ -63,21 +107,7 @@ def r11b(ctx):
             continue
         fn = b['qpath']
         x = a.arg(cb, 1)  # the xorb
-        adds = []
-        for ab in a.calls(ADD):
-            arg = a.arg(ab, 1)
-            # argument must be (a clone of) x.cas_info
-            if arg[0] == 'field' and arg[2] == 'cas_info' and same_root(arg[1], x) and a.awaited(ab) is not None:
-                adds.append(ab)
-        # bypass: edges on which x.num_bytes() == 0 (or x.data.is_empty())
-        def empty_holds(op, l, r):
-            if op != 'Eq':
-                return False
-            if l[0] == 'call' and l[1].endswith('RawXorbData::num_bytes') and same_root(l[2][0], x) and r[0] == 'const' and r[1] == 0:
-                return True
-            return False
-        bypass = edges_where(a, empty_holds)
-        ok = bool(adds) and a.cfg.must_pass(cb, via_blocks=adds, also_cut_edges=bypass)
+        adds, bypass, ok = _records_on_all_paths(a, x, [cb], ctx)
         p = None
         if not ok:
             cut = set(bypass)
@@ -85,7 +115,7 @@ def r11b(ctx):
                 cut.update(a.cfg.out_edges(ab))
             p = a.cfg.path(0, cb, cut_edges=cut)
         ctx.check(ok, 'R11b', fn, 'register_new_xorb_for_upload', a.loc(cb),
-                  'every path to this upload registration passes add_cas_block(%s.cas_info) (%d site(s), lines %s%s)' % (
+                  'every path to this upload registration passes add_cas_block(%s.cas_info), directly or in an awaited helper (%d site(s), lines %s%s)' % (
                       flow.show(x), len(adds), [a.line(x_) for x_ in adds], '; empty-xorb bypass edges: %d' % len(bypass) if bypass else ''),
                   'xorb %s is handed to the uploader on a path that never records its chunk list in the session shard: a later session cannot deduplicate against it' % flow.show(x),
                   path=p and sorted({a.line(q) for q in p}))
@@ -93,8 +123,8 @@ def r11b(ctx):
 
 def r11c(ctx):
     F = ctx.F
-    a = an(F.body(c16.SHARDTASK))
-    fn = c16.SHARDTASK
+    fn = c16.shard_task(ctx).path
+    a = an(F.body(fn))
     ups = a.calls(c16.UPLOAD_SHARD)
     if not ctx.check(len(ups) == 1, 'R11c', fn, 'upload_shard', '-', 'one upload_shard call in the shard task'):
         return
@@ -114,10 +144,26 @@ def r11c(ctx):
     if exps and regs:
         e = exps[0]
         dst = a.arg(e, 1)
-        ctx.check(flow.mentions(dst, lambda x: x[0] == 'call' and x[1].endswith('ShardFileManager::shard_directory') and flow.mentions(x, lambda y: y[0] == 'upvar' and y[1] == 'cache_shard_manager')),
+        # name-agnostic: the directory comes from the same manager that registers the shard, and that manager is the
+        # session's cache_shard_manager as captured where the task is spawned
+        st = c16.shard_task(ctx)
+        au = an(F.body(c16.UPLC))
+        sps = [s_ for s_ in au.calls('tokio::task::join_set::JoinSet::spawn') if st.spawned_in(au, s_)]
+        dirs = [x for x in flow.subtrees(dst) if x[0] == 'call' and x[1].endswith('ShardFileManager::shard_directory')]
+        recv_reg = a.arg(regs[0], 0)
+
+        def is_cache_mgr(node):
+            if not sps:
+                return False
+            refs = [z for z in flow.subtrees(node) if (z[0] == 'upvar' and z[1] != 'self') or (z[0] == 'field' and z[1] == ('upvar', 'self'))]
+            if len(refs) != 1:
+                return False
+            cap = st.capture_of(ctx, au, sps[0], refs[0])
+            return cap is not None and flow.mentions(cap, lambda y: y[0] == 'field' and y[2] == 'cache_shard_manager')
+        ctx.check(len(dirs) == 1 and is_cache_mgr(dirs[0][2][0]),
                   'R11c', fn, 'export_with_expiration.dest', a.loc(e), 'the shard is exported into cache_shard_manager.shard_directory()')
         rarg = a.arg(regs[0], 1)
-        ctx.check(flow.mentions(rarg, lambda x: a.rooted_at(x, e)) and flow.mentions(a.arg(regs[0], 0), lambda y: y[0] == 'upvar' and y[1] == 'cache_shard_manager'),
+        ctx.check(flow.mentions(rarg, lambda x: a.rooted_at(x, e)) and is_cache_mgr(recv_reg),
                   'R11c', fn, 'register_shards.arg', a.loc(regs[0]), 'cache_shard_manager.register_shards receives the exported shard')
         for nm, s in (('export_with_expiration', e), ('register_shards', regs[0])):
             if nm == 'register_shards' and a.awaited(s) is None:
@@ -127,13 +173,22 @@ def r11c(ctx):
             ctx.check(ok, 'R11c', fn, nm + '?', a.loc(s), '%s failure fails the task: %s' % (nm, d))
     # every Ok(()) of the task other than the dry-run early return is dominated by register_shards
     oks = [(b, si) for (b, si, k, e) in a.ret_sites() if k != 'err']
-    dry = edges_where(a, lambda op, l, r: False)
+    st_ = c16.shard_task(ctx)
+    au_ = an(F.body(c16.UPLC))
+    sps_ = [s_ for s_ in au_.calls('tokio::task::join_set::JoinSet::spawn') if st_.spawned_in(au_, s_)]
+
+    def is_dry(e):
+        # the task's copy of the session's dry_run flag, whatever it is called in the task
+        if e[0] == 'upvar' and e[1] != 'self' or (e[0] == 'field' and e[1] == ('upvar', 'self')):
+            cap = st_.capture_of(ctx, au_, sps_[0], e) if sps_ else None
+            return cap is not None and flow.mentions(cap, lambda y: y[0] == 'field' and y[2] == 'dry_run')
+        return False
     dry_edges = []
     for b in sorted(a.cfg.reach0):
         t = a.blocks[b]['t']
         if t['k'] == 'switch':
             e = a.flow.expr(t['d'])
-            if e[0] == 'upvar' and e[1] == 'dry_run':
+            if is_dry(e):
                 dry_edges += [(b, tgt) for v, tgt in t['ts'] if str(v) != '0'] + ([(b, t['o'])] if t['o'] in a.cfg.succ[b] and all(str(v) == '0' for v, _ in t['ts']) else [])
     n = 0
     for (b, si) in oks:
